@@ -26,6 +26,10 @@ pub fn expand(input: &DeriveInput, trait_name: &'static str) -> Result<TokenStre
         syn::Type::TraitObject(obj) if obj.bounds.len() > 1 => quote! { (#field_type) },
         _ => quote! { #field_type },
     };
+    // `Self` in the field type means the deriving type, not a reference to it.
+    let (_, self_ty_generics, _) = input.generics.split_for_impl();
+    let field_type =
+        crate::utils::replace_self(&field_type, &quote! { #input_type #self_ty_generics });
 
     for ref_type in info.ref_types() {
         let reference = ref_type.reference();
